@@ -834,6 +834,80 @@ example : lnPdf (⟨[fin 0, fin (1/2), fin (1/2)], [xComp (fin 3), xComp ninf, x
   rw [this, if_neg (by positivity), Real.log_mul (by norm_num) (Real.exp_pos _).ne', Real.log_exp]
   rfl
 
+/-- `Σ_{k : cₖ supports x} wₖ fₖ(x)` over `X` -/
+noncomputable def suppSum (m : Mix X Ob) (x : Ob) : ℝ :=
+  ((pairs m).map (fun p => if p.2.supports x then p.1.toReal * (p.2.f x).toReal else 0)).sum
+
+-- @site Mixture::pdf
+/-- over `X`, with components of DIFFERENT supports: `pdf(x) = pmf(x) = Σ_{k : cₖ supports x} wₖ fₖ(x)`; a component
+    that does not support `x` contributes nothing, whatever its `f` is there (positive for a Pareto below its scale,
+    NaN / an out-of-bounds panic for a Categorical with fewer categories): only the supported components need a
+    finite density -/
+theorem pdf_X_supp (m : Mix X Ob) (x : Ob) (hw : ∀ w ∈ m.weights, NonnegFin w)
+    (hf : ∀ c ∈ m.comps, c.supports x = true → ∃ r, c.f x = fin r) :
+    pdf m x = fin (suppSum m x) := by
+  unfold pdf
+  have h0 : (0.0 : X) = fin 0 := by rw [X.sci_eq]; norm_num
+  rw [h0, fold_pdf_supp (fun c => c.supports x) (fun c => c.f x) _ 0
+    (fun p hp => by obtain ⟨a, ha, _⟩ := hw p.1 (List.of_mem_zip hp).1; exact ⟨a, ha⟩)
+    (fun p hp hs => hf p.2 (List.of_mem_zip hp).2 hs), zero_add]
+  rfl
+
+/-- two components with different supports at a point supported by the second only: the first one's raw density
+    (here 7) is ignored -/
+example : pdf (⟨[fin (1/2), fin (1/2)],
+      [{ lnF := fun _ => fin (Real.log 7), f := fun _ => fin 7, cdf := fun _ => fin 0, mean := none, variance := none,
+         supports := fun _ => false },
+       { lnF := fun _ => fin 0, f := fun _ => fin 1, cdf := fun _ => fin 0, mean := none, variance := none,
+         supports := fun _ => true }]⟩ : Mix X Unit) () = fin (1/2) := by
+  rw [pdf_X_supp _ _ (by intro w hw; simp at hw; subst hw; exact ⟨_, rfl, by norm_num⟩)
+    (by intro c hc hs; simp at hc; rcases hc with rfl | rfl; · simp at hs
+        · exact ⟨1, rfl⟩)]
+  simp [suppSum, pairs]
+
+-- @site Mixture::ln_pdf
+/-- `ln_pdf` / `ln_pmf` agree with `ln_f` at every point where the components that do not support `x` have
+    log-density `-inf` there (true for Uniform, Categorical-in-range, Gaussian …; NOT for Pareto below its scale,
+    where `ln_f` of the mixture includes the raw density and `ln_pdf` is the log-density proper) -/
+theorem lnPdf_X_of_support (m : Mix X Ob) (x : Ob) (h : LnFHyp m x)
+    (hs : ∀ c ∈ m.comps, c.supports x = false → c.lnF x = ninf) : lnPdf m x = lnF m x := by
+  have hfin : ∀ c ∈ m.comps, ∃ r, c.f x = fin r := by
+    intro c hc
+    rcases (isFinOrNinf_iff _).mp (h.l c hc) with hb | ⟨b, hb⟩
+    · exact ⟨0, by rw [h.c c hc, hb]; rfl⟩
+    · exact ⟨Real.exp b, by rw [h.c c hc, hb]; rfl⟩
+  have e : suppSum m x = mixSum m x := by
+    unfold suppSum mixSum
+    congr 1
+    apply List.map_congr_left
+    intro p hp
+    by_cases hsp : p.2.supports x = true
+    · simp [hsp]
+    · have hc := (List.of_mem_zip hp).2
+      have : p.2.f x = fin 0 := by rw [h.c p.2 hc, hs p.2 hc (by simpa using hsp)]; rfl
+      simp [hsp, this]
+  unfold lnPdf
+  rw [pdf_X_supp m x h.w (fun c hc _ => hfin c hc), e, lnF_eq_ln_f m x h, f_X m x h]
+
+example : lnPdf (⟨[fin (1/2), fin (1/2)],
+      [{ lnF := fun _ => ninf, f := fun _ => fin 0, cdf := fun _ => fin 0, mean := none, variance := none,
+         supports := fun _ => false },
+       { lnF := fun _ => fin 0, f := fun _ => fin 1, cdf := fun _ => fin 0, mean := none, variance := none,
+         supports := fun _ => true }]⟩ : Mix X Unit) () =
+    lnF ⟨[fin (1/2), fin (1/2)],
+      [{ lnF := fun _ => ninf, f := fun _ => fin 0, cdf := fun _ => fin 0, mean := none, variance := none,
+         supports := fun _ => false },
+       { lnF := fun _ => fin 0, f := fun _ => fin 1, cdf := fun _ => fin 0, mean := none, variance := none,
+         supports := fun _ => true }]⟩ () := by
+  apply lnPdf_X_of_support
+  · refine ⟨?_, ?_, ?_⟩
+    · intro w hw; simp at hw; subst hw; exact ⟨_, rfl, by norm_num⟩
+    · intro c hc; simp at hc; rcases hc with rfl | rfl <;> simp
+    · intro c hc; simp at hc; rcases hc with rfl | rfl <;> simp
+  · intro c hc hs; simp at hc; rcases hc with rfl | rfl
+    · rfl
+    · simp at hs
+
 /-- a Gaussian component over `X` satisfies the consistency hypothesis by construction … -/
 example (g : Gen.Gaussian X) (x : X) : (gaussComp g).f x = RealLike.exp ((gaussComp g).lnF x) := rfl
 /-- … and so do the Poisson component; Bernoulli defines `ln_f = ln ∘ f` instead -/
@@ -1068,6 +1142,8 @@ end C11
 #print axioms C11.mixSum_nonneg
 #print axioms C11.lnF_eq_ln_f
 #print axioms C11.lnPdf_X
+#print axioms C11.pdf_X_supp
+#print axioms C11.lnPdf_X_of_support
 #print axioms C11.single_lnF
 #print axioms C11.validateWeights_nan_rejected
 #print axioms C11.validateWeights_nan_variant
